@@ -46,7 +46,7 @@ impl Prop for C16Prop {
         }
     }
     fn rule(&self) -> &'static str {
-        "payload m with |m| on the compiled capacity ladder (0..40 dense, 48..8193 sparse; tails of zeros and 1b forced in half of the runs), followed by a second frame m2; every ladder capacity N in 0..=|m|+1 (all of them for |m| <= 40, the neighbours of |m| above) through push decoder / decode_streaming / SmlReader::with_static_buffer::<N>() over slice, iterator, io::Read, and the default 8 KiB reader buffer for |m| in {8191, 8192, 8193}. Non-trivial = |m| > 0; distinct = scenario fingerprint; each run evaluates up to 43 capacities (counted in counters.capacity-evaluations)"
+        "payload m with |m| on the compiled capacity ladder (0..40 dense, 48..8193 sparse; tails of zeros and 1b forced in half of the runs; a class of payloads ending in 250..260 / 505..515 zeros; push decoder also built with from_buf over a dirty buffer; embedded-hal reader with a static buffer), followed by a second frame m2; every ladder capacity N in 0..=|m|+1 (all of them for |m| <= 40, the neighbours of |m| above) through push decoder / decode_streaming / SmlReader::with_static_buffer::<N>() over slice, iterator, io::Read, and the default 8 KiB reader buffer for |m| in {8191, 8192, 8193}. Non-trivial = |m| > 0; distinct = scenario fingerprint; each run evaluates up to 43 capacities (counted in counters.capacity-evaluations)"
     }
     fn assumptions(&self) -> Vec<&'static str> {
         vec![
